@@ -62,8 +62,8 @@ def render(t, variant, rng, parent_prec=0, right_side=False, parent_op=None):
         rs = render(r, variant, rng, p + 1, True, op)
     if op == "":
         # juxtaposition: a space, or nothing before a parenthesised group
-        if rs.startswith("(") and variant == "tight":
-            s = ls + rs
+        if variant == "tight" and (rs.startswith("(") or (ls.endswith(")") and not rs.startswith("-"))):
+            s = ls + rs                      # "a(b+c)", "(a+b)c": no blank, the implicit operator survives the preprocessor
         else:
             if rs.startswith("-"):
                 rs = f"({rs})"
